@@ -89,6 +89,8 @@ class C06Sim(calsim.CalSim):
                     raise
                 self.outcomes[("error", fname, kind)] = self.outcomes.get(("error", fname, kind), 0) + 1
                 res.stats["crash-state:error"] += 1
+                if k is None and kind != "before-save":
+                    self.save_on_top(cal, scratch, new_state, f"crash after trace operation {i} ({kind} on {fname})", f"{fname}:{kind}")
                 continue
             if new_state is not None and not deep_diff(got, new_state):
                 cls = "new"
@@ -98,6 +100,8 @@ class C06Sim(calsim.CalSim):
                 cls = "hybrid"
             self.outcomes[(cls, fname, kind)] = self.outcomes.get((cls, fname, kind), 0) + 1
             res.stats[f"crash-state:{cls}"] += 1
+            if k is None and kind != "before-save":
+                self.save_on_top(cal, scratch, new_state, f"crash after trace operation {i} ({kind} on {fname})", f"{fname}:{kind}")
             if cls == "hybrid":
                 d_new = deep_diff(got, new_state)[:2]
                 d_old = deep_diff(got, old_state)[:2] if old_state is not None else ["(no previous checkpoint)"]
@@ -132,22 +136,38 @@ class C06Sim(calsim.CalSim):
                 raised = e
             res.stats["ioerror@save"] += 1
             point = label.split(":")[0] + ":" + label.split(":")[1]
+            got = None
             try:
                 got = state_of(F, self.model)
             except BaseException as e:  # noqa: BLE001
                 if isinstance(e, (KeyboardInterrupt, SystemExit)):
                     raise
-                self.outcomes[("error", "live:" + point, "ioerror")] = 1
-                res.stats["ioerror-state:error"] += 1
-                continue
-            if not deep_diff(got, new_state):
-                cls = "new"
-            elif old_state is not None and not deep_diff(got, old_state):
-                cls = "old"
+                cls = "error"
             else:
-                cls = "hybrid"
+                if not deep_diff(got, new_state):
+                    cls = "new"
+                elif old_state is not None and not deep_diff(got, old_state):
+                    cls = "old"
+                else:
+                    cls = "hybrid"
             self.outcomes[(cls, "live:" + point, "ioerror")] = 1
             res.stats[f"ioerror-state:{cls}"] += 1
+            # bounded liveness: the fault is over; the same process saves again (no fault) and that checkpoint must restore exactly
+            dd = []
+            try:
+                cal.create_checkpoint(F)
+            except Exception:  # noqa: BLE001
+                res.stats["save-after-failed-save:raises"] += 1      # refusing loudly is acceptable, a silent mixture is not
+            else:
+                try:
+                    dd = deep_diff(state_of(F, self.model), new_state)
+                except Exception as e:  # noqa: BLE001
+                    dd = [f"restore raises {type(e).__name__}: {e}"[:200]]
+            res.stats["save-after-failed-save"] += 1
+            if dd:
+                res.add("save-after-failed-save-not-clean", f"json-backend:{point}",
+                        f"after an OSError at fault point {k} ({label}) the next save into the same folder SUCCEEDS but the folder does not restore "
+                        f"to the saved state: {dd[:3]}")
             if cls == "hybrid":
                 res.add("hybrid-restore-after-error", f"json-backend:{point}",
                         f"OSError injected at fault point {k} ({label}) of a live save (previous folder '{scn['prestate']}', the save "
@@ -158,6 +178,23 @@ class C06Sim(calsim.CalSim):
         self.fault_points = list(dry.labels)
         if scn.get("strace"):
             self.real_kills(F, old_files, old_state, new_state)
+
+    def save_on_top(self, cal, folder, new_state, what, site):
+        """the crashed process is gone; a process holding the new state saves into the folder the crash left behind"""
+        dd = []
+        try:
+            cal.create_checkpoint(folder)
+        except Exception:  # noqa: BLE001
+            self.res.stats["save-on-top-of-crash-state:raises"] += 1     # refusing loudly is acceptable
+        else:
+            try:
+                dd = deep_diff(state_of(folder, self.model), new_state)
+            except Exception as e:  # noqa: BLE001
+                dd = [f"restore raises {type(e).__name__}: {e}"[:200]]
+        self.res.stats["save-on-top-of-crash-state"] += 1
+        if dd:
+            self.res.add("save-after-crash-not-clean", f"json-backend:{site}",
+                         f"{what}: a later save into that folder SUCCEEDS but the folder does not restore to the saved state: {dd[:3]}")
 
     def real_kills(self, F, old_files, old_state, new_state):  # noqa: N803
         """Validation against real process death: an unmodified interpreter performing the same save is SIGKILLed by
